@@ -756,6 +756,8 @@ func (pc *PartitionContext) removeNodeAllocations(node *objects.Node) ([]*object
 					}
 					// track what we confirm on the other node to confirm it in the shim and get is bound
 					confirmed = append(confirmed, release)
+					// the placeholder is gone
+					pc.decPhAllocationCount(1)
 					// the allocation is removed so add it to the list that we return
 					released = append(released, alloc)
 					log.Log(log.SchedPartition).Info("allocation removed from node and replacement confirmed",
